@@ -45,7 +45,12 @@ Definition shash_eqb (a b : shash) : bool :=
 
 (* try_skip_job between the comparison of the input digests and the hashing of the outputs:
    the job holds the step hash it was created with and the new input part *)
-Record chk := mkChk { k_old : shash; k_env : N; k_inp : list (N * N) }.
+Record chk := mkChk {
+  k_old : shash;               (* job.step_hash *)
+  k_env : N;
+  k_inp : list (N * N);        (* input ingredients of the new hash *)
+  k_snap : list (N * N)        (* job.inp_hashes: (input, hash recorded when the job was created) *)
+}.
 
 Record xworld := mkX {
   xb : world;
@@ -157,7 +162,7 @@ Definition do_xtry_gen (vg : bool -> bool -> bool * bool * N * bool)
                 let '(returned, reset) := try_skip_phase1_gen true ie in
                 if reset then (apply_reset x w, XRTry kn false)
                 else if returned then (set_xb x w, XRTry kn false)
-                else (set_xchk (set_xb x w) (Some (mkChk sh (x_envc x) inp)), XRTry kn false)
+                else (set_xchk (set_xb x w) (Some (mkChk sh (x_envc x) inp snap)), XRTry kn false)
             end
         end
     | _, None => (x, XRTry 0 false)
@@ -176,7 +181,18 @@ Definition validate_prefix (new_run_ok inp_equal : bool) : bool * bool * N * boo
 Definition out_ingredients (x : xworld) : list (N * N) :=
   canon (map (fun o => (o, disk (xb x) o)) (x_outs x)).
 
-Definition do_xchk (x : xworld) (t : N) (cancel : bool) : xworld * xres :=
+(* Executor._inputs_overtaken(step, inp_hashes), evaluated in the transaction that records the skip:
+   the number of input records of the (attached) step differs from the number of hashes the job was
+   created with, or the generated per-record test fires. *)
+Definition overtaken (w : world) (k : chk) : bool :=
+  negb (N.of_nat (length (attached_inputs w)) =? N.of_nat (length (k_snap k)))
+  || existsb (fun f => overtaken_record_gen (f_state (files w f))
+                         (match sm_get f (k_snap k) with Some h => h =? f_hash (files w f) | None => false end))
+             (attached_inputs w).
+
+(* `recheck` = whether try_skip_job performs that test (generated: skip_rechecks_inputs);
+   do_xchk_gen false is the code without it (finding D37), kept to name the defect / regression. *)
+Definition do_xchk_gen (recheck : bool) (x : xworld) (t : N) (cancel : bool) : xworld * xres :=
   match x_chk x with
   | None => (x, XRNone)
   | Some k =>
@@ -184,10 +200,15 @@ Definition do_xchk (x : xworld) (t : N) (cancel : bool) : xworld * xres :=
       let out := out_ingredients x in
       let ie := inp_equal (k_old k) (k_env k) (k_inp k) in
       let oe := pairs_eqb (sh_out (k_old k)) out in
-      let '(finalized, reset, _, completed) := try_skip_phase2_gen (negb cancel) ie oe in
+      let ov := recheck && overtaken w k in
+      let '(finalized, reset, _, completed, skip_reported, repended, rst, rdf) :=
+          try_skip_phase2_gen (negb cancel) ie oe ov in
       if finalized then
-        (mkX (finalize_failed w t) None (x_outs x) (x_envc x) None, XRChk false)
-      else if reset then (apply_reset x w, XRChk false)
+        (mkX (finalize_failed w t) None (x_outs x) (x_envc x) None, XRChk skip_reported)
+      else if reset then (apply_reset x w, XRChk skip_reported)
+      else if repended then
+        (* an input record was overtaken: set_state(PENDING), the hash is kept, checked again later *)
+        (mkX (set_crow w rst rdf (c_dc w)) (x_hash x) (x_outs x) (x_envc x) None, XRChk skip_reported)
       else if completed then
         (* mark_completed(new_hash, False); no record_run_stopped *)
         let '(st, df, _, dc, hstored, _, _, _) :=
@@ -195,9 +216,11 @@ Definition do_xchk (x : xworld) (t : N) (cancel : bool) : xworld * xres :=
         let dc := if st =? trigger_reset_defer_count_state then 0 else dc in
         let w := set_crow w st df dc in
         (mkX w (if hstored then Some (mkSH (k_env k) (k_inp k) out) else None) (x_outs x) (x_envc x) None,
-         XRChk true)
-      else (set_xchk x None, XRChk false)
+         XRChk skip_reported)
+      else (set_xchk x None, XRChk skip_reported)
   end.
+
+Definition do_xchk := do_xchk_gen skip_rechecks_inputs.
 
 (* ---- the command returned ---- *)
 Definition outs_present (x : xworld) : bool :=
